@@ -34,4 +34,10 @@ type Convergen interface {
 	// :skip /^In\./
 	// :skip M
 	ArgKeep(Src) Dst
+	// Templ: templated paths below the source operand and below an additional argument that run
+	// through pointer members; a converter fed by String() of a pointer, its result converted.
+	// :map $1.PIn.B Note
+	// :map $2.PD.N In.Z
+	// :conv Rank PGr Count
+	Templ(src *Src, extra *SIn) *Dst
 }
